@@ -318,7 +318,13 @@ def run(tier):
                      "total quantities of the returned state are evaluated by the harness from the property's definitions (C17)",
                      "TLC integers are 32 bit: exact records only where the returned state is a small rational"],
         mc_runs=[("MC_Vars", "MC_Vars.cfg" if tier == "quick" else "MC_Vars_f.cfg", 4)],
-        groups=[("Judge_Model", recs)], prefixes=["C16"], sig_of=sig_of)
+        groups=[("Judge_Model", recs)], prefixes=["C16"], sig_of=sig_of,
+        symbolic=("Apa_RH", ["InvDefined", "InvMomentum", "InvEnergy", "InvCompression", "InvIdentity"],
+                  "model level, beyond the grid: Apa_RH.tla proves with Apalache/Z3 that the formulas of 'outsub_rh' (shock Mach number, "
+                  "density ratio, velocity behind the shock) satisfy the Rankine-Hugoniot mass, momentum and energy relations for EVERY "
+                  "interior state, imposed pressure and rational gamma > 1, are defined for all of them, give a compression shock with "
+                  "a density ratio below (g+1)/(g-1) when the imposed pressure exceeds the interior one and the interior state itself "
+                  "when the two are equal"))
 
 
 if __name__ == "__main__":
